@@ -332,9 +332,9 @@ HandleReadCD(cs, fsys, req) ==
 Touch(fsys, p) == fsys   \* time stamps of changed nodes are re-read from the observed tree, not predicted
 
 NewFile(p) == [p |-> p, kind |-> "file", size |-> PZero, cid |-> "", vcid |-> "", vsize |-> PZero,
-               mtime |-> 0, ctime |-> 0, target |-> << >>, marks |-> << >>]
+               mtime |-> 0, ctime |-> 0, target |-> << >>, marks |-> << >>, unk |-> FALSE]
 NewDir(p) == [p |-> p, kind |-> "dir", size |-> PZero, cid |-> "", vcid |-> "", vsize |-> PZero,
-              mtime |-> 0, ctime |-> 0, target |-> << >>, marks |-> << >>]
+              mtime |-> 0, ctime |-> 0, target |-> << >>, marks |-> << >>, unk |-> FALSE]
 
 (* names no object can have (NUL inside, longer than 255 bytes): the harness *)
 (* lists those segments of the request's path in req.bad                    *)
@@ -362,7 +362,7 @@ HandleCreate(cs, fsys, req, aw) ==
           THEN IF Node(fsys, t).kind = "dir"
                THEN { Outcome(cs0, fsys, Res4(0), FALSE), Outcome(cs0, fsys, Res4(-1), FALSE) }
                ELSE LET n == Node(fsys, t)
-                        n2 == [n EXCEPT !.size = PZero, !.cid = "", !.vcid = "", !.vsize = PZero, !.marks = << >>]
+                        n2 == [n EXCEPT !.size = PZero, !.cid = "", !.vcid = "", !.vsize = PZero, !.marks = << >>, !.unk = FALSE]
                     IN { Outcome([cs0 EXCEPT !.wo = [open |-> TRUE, path |-> t, off |-> PZero]], (fsys \ {n}) \cup {n2}, Res4(0), FALSE) }
           ELSE LET q == FinalTarget(fsys, p, 4) IN      \* O_CREAT follows a dangling link to its target
                IF q = NoPath \/ BadName(req, Base(q))
@@ -381,7 +381,7 @@ HandleWrite(cs, fsys, req, aw) ==
        IF ~Exists(fsys, cs.wo.path)     \* file removed while open: data goes to the unlinked inode
        THEN { Outcome(cs2, fsys, Res4(req.plen), FALSE) }
        ELSE LET n == Node(fsys, cs.wo.path) IN
-            IF n.kind # "file" \/ n.size # cs.wo.off
+            IF n.kind # "file" \/ n.size # cs.wo.off \/ n.unk
             THEN \* somebody else re-created or wrote the same file meanwhile (or the name now denotes another
                  \* object): two writers on one file - the resulting content is unspecified
                  { OutcomeWild(cs2, fsys, Res4(req.plen), FALSE, {cs.wo.path}) }
@@ -468,6 +468,52 @@ Handle(cs, fsys, req, aw, views) ==
   IF req.op \in PathOps /\ Escapes(req.path)
   THEN Handle1(cs, fsys, req, aw, views) \cup Handle1(cs, fsys, [req EXCEPT !.path = NoSuchPath], aw, views)
   ELSE Handle1(cs, fsys, req, aw, views)
+
+(***************************************************************************)
+(* C13: a request during which the filesystem failed (an operation returned *)
+(* an error, or a read/write was cut short).  The client may get the fully  *)
+(* correct outcome, the protocol's failure reply, or a correct prefix and   *)
+(* a closed connection - nothing else.  Where the failure leaves the        *)
+(* connection's private state is not specified: every plausible state is    *)
+(* offered (the later observations pick the one that explains them).        *)
+(***************************************************************************)
+DirStates(cs, ok) ==
+  { cs.dir, NoDir, [cs.dir EXCEPT !.undef = TRUE] } \cup { o.cs.dir : o \in ok } \cup { [o.cs.dir EXCEPT !.undef = TRUE] : o \in ok }
+FaultOutcomes(cs, fsys, req, aw, views) ==
+  LET ok == Handle1(cs, fsys, req, aw, views)
+      closedAny == { Outcome(cs, fsys, RNone, TRUE) }
+  IN CASE req.op = "OPEN_DIR" ->
+            { Outcome([cs EXCEPT !.dir = d], fsys, Res4(-1), FALSE) : d \in DirStates(cs, ok) }
+       [] req.op \in {"READ_DIR_ENTRY", "READ_DIR_ENTRY_V2"} ->
+            \* entries that cannot be stat'ed are skipped by design; the rest of the listing is unspecified afterwards
+            UNION { { Outcome([cs EXCEPT !.dir = d], fsys, o.resp, FALSE) : d \in {NoDir, [o.cs.dir EXCEPT !.undef = TRUE]} } : o \in ok }
+            \cup { Outcome([cs EXCEPT !.dir = NoDir], fsys, EndMarker(req.op = "READ_DIR_ENTRY_V2"), FALSE) }
+       [] req.op = "READ_DIR" ->
+            UNION { { Outcome([cs EXCEPT !.dir = d], fsys, [k |-> "ReadDirSubset", ents |-> o.resp.ents], FALSE)
+                      : d \in {NoDir, [o.cs.dir EXCEPT !.undef = TRUE]} } : o \in { o \in ok : o.resp.k = "ReadDir" } }
+            \cup { Outcome(o.cs, fsys, AnyResp, FALSE) : o \in { o \in ok : o.resp.k # "ReadDir" } }
+       [] req.op = "STAT_FILE" -> { Outcome(cs, fsys, StatFail, FALSE) }
+       [] req.op = "OPEN_FILE" ->
+            \* failure reply; the file may or may not stay open behind it
+            { Outcome([cs EXCEPT !.ro = NoFile, !.sect = 0], fsys, OpenFail, FALSE) }
+            \cup { Outcome(o.cs, fsys, OpenFail, FALSE) : o \in ok }
+            \* success reply, but the sector-size probe failed: the default applies
+            \cup { Outcome([o.cs EXCEPT !.sect = DefaultCDSector], fsys, o.resp, FALSE) : o \in { o \in ok : o.cs.ro.open } }
+       [] req.op = "READ_FILE" -> closedAny
+       [] req.op \in {"READ_FILE_CRITICAL", "READ_CD_2048"} ->
+            { Outcome(cs, fsys, [k |-> "RawPrefix", runs |-> o.resp.runs], TRUE) : o \in { o \in ok : o.resp.k \in {"Raw", "RawPrefix"} } }
+            \cup closedAny
+       [] req.op = "CREATE_FILE" -> { Outcome([cs EXCEPT !.wo = NoWo], fsys, Res4(-1), FALSE) }
+       [] req.op = "WRITE_FILE" ->
+            \* a failed write may have stored a part of the payload
+            { OutcomeWild(cs, fsys, Res4(-1), FALSE, IF cs.wo.open THEN {cs.wo.path} ELSE {}) }
+       [] req.op \in {"DELETE_FILE", "MKDIR", "RMDIR"} -> { Outcome(cs, fsys, Res4(-1), FALSE) }
+       [] req.op = "GET_DIR_SIZE" -> { Outcome(cs, fsys, AnyResp, FALSE) }   \* unreadable entries are skipped by design
+       [] OTHER -> {}
+
+HandleF(cs, fsys, req, aw, views, nfaults) ==
+  IF nfaults = 0 THEN Handle(cs, fsys, req, aw, views)
+  ELSE Handle(cs, fsys, req, aw, views) \cup FaultOutcomes(cs, fsys, req, aw, views)
 
 (* handles the connection owns, by role *)
 Owned(cs) == (IF cs.dir.open THEN {"dir"} ELSE {}) \cup (IF cs.ro.open THEN {"ro"} ELSE {}) \cup (IF cs.wo.open THEN {"wo"} ELSE {})
